@@ -6,7 +6,8 @@ from contracts.polyspec import *
 def _jacobi_ab(rng):
     """Jacobi weight parameters: random, or one of the classical special pairs (Legendre, the four Chebyshev kinds, Gegenbauer,
     pairs with alpha + beta = 0 or -1, where the general recurrence coefficients at n = 0 are 0/0 and the code has a special case)"""
-    special = [(0.0, 0.0), (-0.5, -0.5), (0.5, 0.5), (-0.5, 0.5), (0.5, -0.5), (0.3, -0.3), (-0.25, -0.75), (1.0, 1.0), (2.0, -0.5)]
+    special = [(0.0, 0.0), (-0.5, -0.5), (0.5, 0.5), (-0.5, 0.5), (0.5, -0.5), (0.3, -0.3), (-0.25, -0.75), (1.0, 1.0), (2.0, -0.5),
+               (0.1 + 0.2, -0.3), (-0.7 + 1e-17, -0.3), (0.1 + 0.2 - 1.0, -0.3)]      # alpha+beta a rounding error away from 0 / -1
     if rng.random() < 0.4:
         return special[int(rng.integers(0, len(special)))]
     return float(rng.uniform(-0.9, 3)), float(rng.uniform(-0.9, 3))
@@ -189,6 +190,12 @@ def bounded_sums(which):
             modes = np.asfortranarray(modes)
         got = get(P + 'lstsq')(modes, data)
         check('recovers-coefficients', bool(np.allclose(got, c, rtol=1e-7, atol=1e-8)))
+        # a basis that was itself blanked (NaN) outside the aperture, i.e. exactly where the data are invalid: those samples are
+        # ignored, whatever the modes hold there
+        mb = np.array(modes, dtype=float, copy=True)
+        mb[:, ~np.isfinite(data)] = np.nan
+        got_b = get(P + 'lstsq')(mb, data)
+        check('recovers-coefficients-with-a-blanked-basis', bool(np.allclose(got_b, c, rtol=1e-7, atol=1e-8)))
     else:
         H, W = int(rng.integers(5, 9)), int(rng.integers(5, 9))
         xx, yy = np.meshgrid(np.arange(W) - W // 2, np.arange(H) - H // 2)
